@@ -51,6 +51,8 @@ def run(ctx, res):
     inp = input_slice()
     H = Header(inp)
     outs = I.run(parsers[P], [inp])
+    from ..core import arithmetic
+    arithmetic(res, I, parsers[P])
     seen_ok, seen_err = set(), set()
     n = 0
     for s, k, v in outs:
